@@ -191,3 +191,20 @@ var round18Explanations = map[string]string{
 	"C17": " (R26) as C03.R23. (R28) stores into RouterConfigurationConfig/VirtualHost.RequestHeadersToRemove, RouterActionConfig.{Request,Response}HeadersTo{Add,Remove} and HostRewrite in the conv package derive from the xDS getters of the same meaning. (R29) finalizePathHeader is statically reachable from FinalizeRequestHeaders of every *RouteRuleImpl type embedding the base rule.",
 	"C20": " (R11) redactTLSConfig stores a fresh Alloc into TLSConfig.SdsConfig whose CertificateConfig and ValidationConfig are results of a callee that reaches redactRawJSON.",
 }
+
+var round19Explanations = map[string]string{
+	"C01": " (R26) in ClientConn.encodeHeaders no call of a function value with (name, value string) gets a Slice as value.",
+	"C03": " (R24) no function statically reachable from doRetry (the reply installers excepted) stores into a downstreamResp* field.",
+	"C04": " (R21) the *Attributes constructor of pkg/cel/extract called by DslExpressionRouteRuleImpl.Match returns an Alloc on every path and reaches no (*sync.Pool).Get.",
+	"C06": " (R12) every store into RouteRuleImplBase.defaultCluster is a composite literal whose clusterName derives from the route action's ClusterName.",
+	"C11": " (O25) no return of streamConn.handleRequest is guarded by a condition derived from a field GoAway() stores.",
+	"C12": " (R21) the NewTLSServerContextManager call of the update branch of AddOrUpdateListener is guarded by no DeepEqual/equality of TLS fields unless the comparison also reads Inspector.",
+	"C13": " (R30) as C12.R21. (R31) the x509 Verify call of Conn.processCertsFromClient is guarded by no condition derived from a call named load/cache/lookup/verified.",
+	"C14": " (R21) as C03.R24. (R20) every store into grpcStreamFilterChain.err in the Send* methods of the grpc filter handlers is the result of errors.New or fmt.Errorf.",
+	"C15": " (R20) stores into simpleCluster.lbInstance / hostSet occur only in UpdateHosts and the constructors (frozen table).",
+	"C16": " (R7) no field of the sessionChecker newChecker builds is the result of a same-package call that reaches a package-level variable; (R3) the counters may live in any struct of the checker.",
+	"C17": " (R30) every return of setupRetry reachable from the store upstreamRequest.setupRetry = true returns the constant true.",
+	"C18": " (W21) the Wait() of both awaitFlowControl functions is guarded by available() <= 0 (directly, or through a grant helper called with available() all of whose `return 0` lie under param0 <= 0).",
+	"C19": " (R18) C20.R3 evaluated for this property.",
+	"C20": " (R12) neither v2.TLSConfig nor *v2.TLSConfig has a method UnmarshalJSON. (R3) a MakeMap whose reference-typed elements were ranged or looked up out of a non-fresh container is not fresh when it is handed to a callee that writes through the parameter.",
+}
